@@ -103,7 +103,11 @@ func newC20sH() *c20sH {
 		for name := range u.NodeVars {
 			nodes = append(nodes, *h.node(name, 0))
 		}
-		cfg, err := config.For(config.ClusterResources{Pools: c.Pools, L2Advs: c.L2Advs, BGPAdvs: c.BGPAdvs, Peers: c.Peers, Communities: c.Comms, Nodes: nodes}, config.DontValidate)
+		secrets := map[string]v1.Secret{}
+		for _, sec := range c.Secrets {
+			secrets[sec.Name] = sec
+		}
+		cfg, err := config.For(config.ClusterResources{Pools: c.Pools, L2Advs: c.L2Advs, BGPAdvs: c.BGPAdvs, Peers: c.Peers, Communities: c.Comms, Nodes: nodes, PasswordSecrets: secrets}, config.DontValidate)
 		if err != nil {
 			panic(err)
 		}
